@@ -215,7 +215,7 @@ def handleFx (fx : Fx) (items : List Sexp) : String :=
     | some n => resStr toString (listResize n) | none => bad
   | [.atom "split", .atom i, .atom p, k] => match bytesOfHex i, bytesOfHex p, k.nat? with
     | some i, some p, some k =>
-      let (ps, h) := splitRunH (sizeHintG fx) i p k ⟨i.length, 0⟩ []
+      let (ps, h) := splitRunH (sizeHintG fx) i p false k ⟨i.length, 0⟩ []
       s!"{piecesStr ps} | {resStr toString h}"
     | _, _, _ => bad
   | [.atom "lines", .atom i, k] => match bytesOfHex i, k.nat? with
